@@ -158,6 +158,43 @@ func calls(fd *ast.FuncDecl, want map[string]bool) []string {
 	return out
 }
 
+// skelBase lists, in source order, the calls inside fn whose base name (qualifier
+// stripped) is in `want`, plus the marker "CheckCommitted" at each `if` whose
+// condition tests the transaction status against TSCommitted.
+func skelBase(fd *ast.FuncDecl, want map[string]bool) []string {
+	if fd == nil || fd.Body == nil {
+		return []string{"?"}
+	}
+	type pc struct {
+		pos  token.Pos
+		name string
+	}
+	var res []pc
+	ast.Inspect(fd.Body, func(n ast.Node) bool {
+		switch x := n.(type) {
+		case *ast.CallExpr:
+			name := exprStr(x.Fun)
+			if i := strings.LastIndex(name, "."); i >= 0 {
+				name = name[i+1:]
+			}
+			if want[name] {
+				res = append(res, pc{x.Pos(), name})
+			}
+		case *ast.IfStmt:
+			if strings.Contains(exprSrc(x.Cond), "TSCommitted") {
+				res = append(res, pc{x.Pos(), "CheckCommitted"})
+			}
+		}
+		return true
+	})
+	sort.Slice(res, func(i, j int) bool { return res[i].pos < res[j].pos })
+	out := make([]string, len(res))
+	for i, r := range res {
+		out[i] = r.name
+	}
+	return out
+}
+
 func set(names ...string) map[string]bool {
 	m := map[string]bool{}
 	for _, n := range names {
@@ -794,6 +831,25 @@ func main() {
 	sk("skel_index_table", "pkg/ingest/index.go", "IndexTable")
 	sk("skel_tx_commit", "pkg/transaction/transaction.go", "Commit")
 	sk("skel_tx_discard", "pkg/transaction/transaction.go", "Discard")
+	txNames := set("GetTransaction", "ListTransactionRefs", "GetTransactionLogs", "GetCommit", "GetHead", "SaveCommit", "SaveRef",
+		"UpdateTransaction", "DeleteTransactionRefs", "DeleteTransaction")
+	def("txn_commit_skel", "list string", coqStrList(skelBase(findFunc("pkg/transaction/transaction.go", "Commit"), txNames)),
+		"transaction.Commit: store calls by base name in source order, with the CheckCommitted marker at the status guard")
+	def("txn_discard_skel", "list string", coqStrList(skelBase(findFunc("pkg/transaction/transaction.go", "Discard"), txNames)),
+		"transaction.Discard")
+	// prune: Delete* calls and childrenFirst in source order of Prune, pruneTables inlined at its call site
+	{
+		names := set("DeleteTable", "DeleteTableIndex", "DeleteTableProfile", "DeleteBlock", "DeleteBlockIndex", "DeleteCommit", "childrenFirst", "pruneTables")
+		var flat []string
+		for _, c := range skelBase(findFunc("pkg/prune/prune.go", "Prune"), names) {
+			if c == "pruneTables" {
+				flat = append(flat, skelBase(findFunc("pkg/prune/prune.go", "pruneTables"), names)...)
+			} else {
+				flat = append(flat, c)
+			}
+		}
+		def("prune_delete_skel", "list string", coqStrList(flat), "prune.Prune: deletes and the commit ordering call in source order (pruneTables inlined)")
+	}
 	sk("skel_prune", "pkg/prune/prune.go", "Prune")
 	sk("skel_prune_tables", "pkg/prune/prune.go", "pruneTables")
 	sk("skel_fetch", "cmd/wrgl/fetch/root.go", "Fetch")
